@@ -1086,6 +1086,14 @@ def oracle_fit(op, res):
             continue
         drift = (f"{div[2]} of {div[1]} weak-learner fits matched, all with the same structure, gradients within {div[3]:.3g}"
                  if div[0] == "same" else "no trace")
+        if cf[4] == ref[4] and not bad and (cf[2] != ref[2] or cf[3] != ref[3]):
+            # same selected features and predictions within rounding, but the tuner took another path (number of trials / index of
+            # the optimum trial): its proposals branch on trial values that differ at rounding level between pool sizes (non-smooth
+            # solver + re-associated reductions). The statement is about the fitted model, not the tuner's bookkeeping: counted,
+            # not flagged (first flagged at VERIF_SEED=63: lasso + osga, 8 vs 9 trials, identical model - a false alarm)
+            count("tuner_path_differs_same_model")
+            compared += 1
+            continue
         if cf[4] != ref[4] or cf[2] != ref[2] or cf[3] != ref[3]:
             first = next((i for i, (x, y) in enumerate(zip(ref[4], cf[4])) if x != y), min(len(ref[4]), len(cf[4])))
             return (f"{where}: selected features differ from the sequential reference at weak learner {first}: "
